@@ -208,11 +208,13 @@ class CFG(object):
             return self._try(s, preds)
         if isinstance(s, ast.Break):
             n = self._new("stmt", s)
+            self.stmt_node.setdefault(id(s), n)
             self._link(preds, n)
             self._edge(n, self._loops[-1][1])
             return []
         if isinstance(s, ast.Continue):
             n = self._new("stmt", s)
+            self.stmt_node.setdefault(id(s), n)
             self._link(preds, n)
             self._edge(n, self._loops[-1][0])
             return []
